@@ -11,6 +11,7 @@ from symx import core
 from symx.runner import F, JobAcc
 
 PROPERTY = "C05"
+UNIT_LEVEL_SIGS = r"unit:"  # unit-lemma counter-examples are reported as unit-level, never as VIOLATION (DESIGN 6 C04 U1)
 BUDGET = {"quick": 170, "thorough": 1700}
 META = {
     "explanation": "same bounded symbolic exploration of the real ThresholdOptimizer.fit + _pmf_predict as C04 (symbolic scores, one path per weak "
@@ -45,6 +46,8 @@ def jobs(tier, seed):
         for cfg in tc.configs(tier, rnd):
             for gs in ([rnd.choice(grids)] if tier == "quick" else rnd.sample(grids, 2)):
                 js.append({"id": f"s{si}-{cfg[0]}-{cfg[1]}-{'flip' if cfg[2] else 'noflip'}-g{gs}", "y": y, "groups": g, "cfg": list(cfg), "grid": gs})
+    for K in ((2, 3, 4, 5) if tier == "quick" else (2, 3, 4, 5, 6)):
+        js.insert(0, {"id": f"hullU1-K{K}", "kind": "hullU1", "K": K})
     return js
 
 
@@ -113,6 +116,11 @@ def best_constant(cfg, y, groups):
 
 def run_job(job, deadline):
     acc = JobAcc(job)
+    if job.get("kind") == "hullU1":
+        from harness import hull
+
+        hull.explore_hull(acc, job["K"], deadline, ("envelope",), "c05")
+        return acc.result()
     y, groups, cfg, gs = job["y"], job["groups"], tuple(job["cfg"]), job["grid"]
     n = len(y)
 
@@ -160,6 +168,10 @@ def run_job(job, deadline):
 
 
 def replay(cex):
+    if cex["job"].get("kind") == "hullU1":
+        from harness import hull
+
+        return hull.replay_unit(cex)
     job, mdl = cex["job"], cex["model"]
     y, groups, cfg, gs = job["y"], job["groups"], tuple(job["cfg"]), job["grid"]
     n = len(y)
